@@ -193,7 +193,9 @@ static void mode_rseq(Ctx& c) {
       if (!src.empty() && write(fd, src.data(), src.size()) != static_cast<ssize_t>(src.size())) std::abort();
       lseek(fd, 0, SEEK_SET);
       nop::FdReader r{fd};
+      if (it % 2 == 0) nopv::short_read_fd() = fd;   // half of the sequences see short reads
       results.emplace_back("fd", run_rops(r, ops));
+      nopv::short_read_fd() = -1;
     }
     for (auto& kv : results) {
       if (kv.first == "stream" || kv.first == "fd") {
